@@ -512,6 +512,9 @@ Definition es_compute (k : skey) (id : N) : prog :=
       Pythia (PEarlyStop k id) (fun po => match po with
         | PDecide ds smd tmd =>
           Acquire (LStudy k) (Call (CUpdateMd k smd tmd) (fun r2 => match r2 with
+            | Err ENotFound | Err EKey =>        (* metadata that cannot be stored: finish the operation, report the error *)
+              Release (LStudy k) (Call (CUpdateEs k (mkEs id false false)) (fun r4 => expect_unit r4
+                (Throw (match r2 with Err e => e | Ok _ => EOther end))))
             | Err e => Throw e
             | Ok _ => Release (LStudy k) (
               decisions_loop k ds
